@@ -640,6 +640,40 @@ pub fn gen_c08(out: &mut impl Write, seed: u64, thorough: bool) {
 
 pub fn gen_c13(out: &mut impl Write, seed: u64, thorough: bool) {
     let mut r = Rng::new(seed ^ 0xC13);
+    // the same bytes offered to both back ends of a version (ids and texts must agree whenever both accept): generated keys and
+    // every non-canonical / unusual encoding class of Ed25519 and P-384 points
+    {
+        let p25519: [u8; 32] = { let mut p = [0xffu8; 32]; p[0] = 0xed; p[31] = 0x7f; p };
+        let mut ed: Vec<Vec<u8>> = vec![];
+        for k in 0u8..19 {                       // y = p + k (non-canonical field element), both signs
+            let mut v = p25519.to_vec(); v[0] = 0xed + k; ed.push(v.clone()); v[31] |= 0x80; ed.push(v);
+        }
+        for y0 in [0u8, 1, 2] {                   // small y with the sign bit set (x = 0 cases included)
+            let mut v = vec![0u8; 32]; v[0] = y0; ed.push(v.clone()); v[31] = 0x80; ed.push(v);
+        }
+        { let mut v = p25519.to_vec(); v[0] = 0xec; ed.push(v.clone()); v[31] = 0xff; ed.push(v); }   // y = -1
+        for _ in 0..(if thorough { 200 } else { 30 }) { let mut v = r.bytes(32); ed.push(v.clone()); v[31] |= 0x80; ed.push(v); }
+        for v in &ed {
+            writeln!(out, "o.id.sib 4 public {}", hex(v)).unwrap();
+            writeln!(out, "o.id.sib 4 pkepublic {}", hex(v)).unwrap();
+        }
+        for _ in 0..(if thorough { 40 } else { 8 }) {
+            let sk4 = gen_secret(Be::V4);
+            writeln!(out, "o.id.sib 4 secret {}", hex(&sk4)).unwrap();
+            writeln!(out, "o.id.sib 4 public {}", hex(&public_of(Be::V4, &sk4))).unwrap();
+            writeln!(out, "o.id.sib 4 local {}", hex(&r.bytes(32))).unwrap();
+            let sk3 = gen_secret(Be::V3);
+            let pk3 = public_of(Be::V3, &sk3);
+            writeln!(out, "o.id.sib 3 secret {}", hex(&sk3)).unwrap();
+            writeln!(out, "o.id.sib 3 public {}", hex(&pk3)).unwrap();
+            writeln!(out, "o.id.sib 3 local {}", hex(&r.bytes(32))).unwrap();
+            if let Some(u) = p384_uncompressed(&pk3) {
+                writeln!(out, "o.id.sib 3 public {}", hex(&u)).unwrap();
+                let mut h = u.clone(); h[0] = 0x06 | (u[96] & 1); writeln!(out, "o.id.sib 3 public {}", hex(&h)).unwrap();
+                let mut c = pk3.clone(); c[0] ^= 1; writeln!(out, "o.id.sib 3 public {}", hex(&c)).unwrap();
+            }
+        }
+    }
     for be in ALL_BE {
         // v1: one key of every PKCS#1 DER length in the RSA pool (the PASERK text of a k1.secret is 1590..1602 characters)
         let n = if be == Be::V1 { if thorough { 16 } else { 6 } } else if thorough { 100 } else { 12 };
